@@ -119,4 +119,20 @@ let () =
               List (List.map (fun (k, _) -> sn k) (B.assoc_of (List.map (fun k -> (n_ k, ())) (list_ ks))))) l)
       | _ -> raise (Shape "assockeys args"))
 
+(* chaintables ("lit"...) ipre "next" -> (alltables ...) in cg-dump's format (without needs / shapehash) *)
+let () =
+  register "chaintables" (fun v ->
+      match v with
+      | List [List lits; ipre; next] ->
+          let t = Extracted.ChainTables.chain_alltables (List.map (fun s -> cl (string_ s)) lits) (n_ ipre) (cl (string_ next)) in
+          let module D = Extracted.Dfa in
+          List [Atom "alltables";
+                List (Atom "commands" :: List.map ss t.D.a_commands);
+                List (Atom "states" :: List.map sn t.D.a_states);
+                List [Atom "main"; Dfa_io.of_tables t.D.a_main];
+                List (Atom "subtrans" :: List.map Dfa_io.of_row t.D.a_subtrans);
+                List [Atom "csub"; Dfa_io.of_levels t.D.a_csub];
+                List (Atom "subwords" :: List.map (fun ((p, i), tb) -> List [sn p; sn i; Dfa_io.of_tables tb]) t.D.a_subwords)]
+      | _ -> raise (Shape "chaintables args"))
+
 let linked = ()
